@@ -307,6 +307,13 @@ def run_shard(ctx, spec):
         for ascii_only in ((True,) if ctx.tier == 'quick' and spec['i'] % 2 else (True, False)):
             g = relang.Gen(mon.P[fam], seed=ctx.seed * 17 + fi + 100 * spec['i'] + ascii_only, ascii_only=ascii_only, maxrep=3)
             codes.extend(g.many(per // (1 if fam == 'PAT_EVENT_CODE' else 3)))
+    if spec['i'] % 4 == 2:
+        # the language has no length bound: digit and blank runs of 45 / 130 / 700 (a zero-padded field, a format width, a recursion)
+        for fi, fam in enumerate(fams[1:]):
+            g = relang.Gen(mon.P[fam], seed=ctx.seed * 19 + fi + spec['i'], ascii_only=True, maxrep=1, long_repeats=(45, 130, 700))
+            longs = [c for c in g.many(40) if len(c) > 40]
+            ctx.count('eval.codes-longer-than-40-characters', len(longs))
+            codes.extend(longs)
     if spec['i'] == 0:
         codes.extend(CUSTOMARY)
         from .c07 import table_keys
